@@ -2,6 +2,7 @@ mod app;
 mod build;
 mod dsl;
 mod hosts;
+mod laws;
 mod props;
 mod refmodel;
 mod sched;
@@ -68,6 +69,38 @@ fn seqx_property(id: &str, tier: Tier) -> i32 {
     };
     let out = props::run_suites(&rep, &suites, deadline, cap);
     let extra = props::extra_cases(id, &rep);
+    let mut law_cov = json!(null);
+    if id == "C04" {
+        let laws = laws::laws(tier == Tier::Thorough);
+        let depth = tier.pick(5, 6);
+        let results = mc_kit::par_map(&laws, |_, l| {
+            let mut st = laws::LStats::default();
+            let mut found = vec![];
+            laws::explore(l, depth, &mut st, &mut found);
+            (st, found)
+        });
+        let mut tot = laws::LStats::default();
+        let mut names = std::collections::BTreeMap::<&str, u64>::new();
+        for (l, (st, found)) in laws.iter().zip(results) {
+            tot.laws += st.laws;
+            tot.states += st.states;
+            tot.transitions += st.transitions;
+            tot.histories += st.histories;
+            tot.outcomes.extend(st.outcomes);
+            *names.entry(l.name).or_default() += 1;
+            for f in found {
+                rep.violation(mc_kit::Violation {
+                    key: format!("law/{}", f.law.replace(' ', "")),
+                    what: format!("law `{}` fails for operands {}: history {:?}: {}", f.law, f.describe, f.history, f.what),
+                    replay: json!({"engine": "laws", "law": f.law, "operands": f.describe, "history": f.history}),
+                    size: f.describe.len() + f.history.len(),
+                });
+            }
+        }
+        law_cov = json!({"law_instances": tot.laws, "instances_per_law": names, "states": tot.states, "transitions": tot.transitions,
+            "complete_histories": tot.histories, "distinct_outcomes": tot.outcomes.len(), "depth_bound": depth,
+            "method": "differential: both sides are real commands driven by the same history (resolve, re-resolve, drop; observed or one unobserved step), observations compared as multisets per step plus is_done and resolve results; no reference involved"});
+    }
     if out.stats.outcomes.len() < 2 || out.stats.programs < 2 {
         mc_kit::machinery_error("vacuous exploration: fewer than 2 distinct outcomes");
     }
@@ -87,6 +120,7 @@ fn seqx_property(id: &str, tier: Tier) -> i32 {
         "caps": if out.stats.capped { "a per-program node cap or the wall-clock deadline cut some history trees; see per-suite 'capped'" } else { "none hit: every history tree was enumerated to exhaustion or to its depth bound" },
         "samples": out.samples,
         "dedicated_cases": extra,
+        "laws": law_cov,
     });
     rep.finish(
         "model_checking",
